@@ -151,6 +151,11 @@ func mutate(code string, mut int) string {
 			sb.WriteRune(rune(0xFF10 + int(c-'0')))
 		}
 		return sb.String()
+	case 10: // same length: the last digit replaced by the letter people mistake it for
+		b[len(b)-1] = "OlZEASGTBg"[b[len(b)-1]-'0']
+		return string(b)
+	case 11: // the code as people type it: two groups separated by a blank
+		return code[:len(code)/2] + " " + code[len(code)/2:]
 	case 9: // same byte length: the first two bytes are one two-byte character whose code point ends in the first digit
 		if len(b) >= 2 {
 			return string(rune(0x100+int(b[0]))) + code[2:]
@@ -726,7 +731,7 @@ func drawRestStep(t *rapid.T) restStep {
 			s.TS = 1 // timestamp 0 means "absent" to the service (the server's clock decides)
 		}
 		s.Dist = rapid.IntRange(-int(sk)-2, int(sk)+2).Draw(t, "dist")
-		s.Mut = rapid.SampledFrom([]int{0, 0, 0, 0, 1, 2, 3, 4, 5, 6, 7, 8, 9}).Draw(t, "mut")
+		s.Mut = rapid.SampledFrom([]int{0, 0, 0, 0, 1, 2, 3, 4, 5, 6, 7, 8, 9, 10, 11}).Draw(t, "mut")
 		if rapid.IntRange(0, 7).Draw(t, "sibDigQ") == 0 {
 			s.SibDig = rapid.SampledFrom([]int{6, 8, 9, 10, 7}).Draw(t, "sibDig")
 		}
@@ -759,7 +764,7 @@ func drawRestStep(t *rapid.T) restStep {
 		if s.Dist < 0 && c < uint64(-s.Dist) {
 			s.Dist = -s.Dist
 		}
-		s.Mut = rapid.SampledFrom([]int{0, 0, 0, 0, 1, 2, 3, 4, 5, 6, 7, 8, 9}).Draw(t, "mut")
+		s.Mut = rapid.SampledFrom([]int{0, 0, 0, 0, 1, 2, 3, 4, 5, 6, 7, 8, 9, 10, 11}).Draw(t, "mut")
 	case "ocra-gen", "ocra-val", "chain-ocra":
 		if rapid.Bool().Draw(t, "useRaw") {
 			s.RawName = rapid.SampledFrom(registeredNames).Draw(t, "rawName")
@@ -787,7 +792,7 @@ func drawRestStep(t *rapid.T) restStep {
 		if s.Ep != "chain-ocra" && rapid.IntRange(0, 5).Draw(t, "badIn") == 0 {
 			s.In.Q = append(s.In.Q, make([]byte, 129)...) // challenge too long (if selected)
 		}
-		s.Mut = rapid.SampledFrom([]int{0, 0, 0, 1, 2, 3, 4, 5, 6, 7, 9}).Draw(t, "mut")
+		s.Mut = rapid.SampledFrom([]int{0, 0, 0, 1, 2, 3, 4, 5, 6, 7, 9, 10, 11}).Draw(t, "mut")
 	case "chain-ocra-both":
 		// a registered name plus a structured twin (same or different digits/hash); inputs admissible for both
 		s.RawName = rapid.SampledFrom(registeredNames).Draw(t, "rawName")
